@@ -33,11 +33,12 @@ def ty_width(ty):
 
 
 class Tok:
-    __slots__ = ("k", "w", "kind", "name", "sub", "arms", "cond", "ln", "count")
+    __slots__ = ("k", "w", "kind", "name", "sub", "arms", "cond", "ln", "count", "lit")
 
     def __init__(self, k, w=None, kind=None, name=None, sub=None, arms=None, cond=None, ln=None):
         self.k, self.w, self.kind, self.name, self.sub, self.arms, self.cond, self.ln = k, w, kind, name, sub, arms, cond, ln
         self.count = None
+        self.lit = None
 
     def show(self):
         if self.k == "P":
@@ -97,9 +98,15 @@ class Extractor:
         if m and m.group(1) == ("read" if self.mode == "r" else "write"):
             w = int(m.group(3)) // 8
             fld = None
+            lit = None
             if self.mode == "w" and n.get("args"):
                 fld = self.field_name(n["args"][-1] if k == "mcall" else n["args"][-1])
-            return [Tok("P", w=w, kind={"u": "u", "i": "i", "f": "f"}[m.group(2)], name=fld, ln=n["ln"])]
+                la = hirq.strip(n["args"][-1])
+                if la.get("k") == "lit":
+                    lit = hirq.render(la)
+            t = Tok("P", w=w, kind={"u": "u", "i": "i", "f": "f"}[m.group(2)], name=fld, ln=n["ln"])
+            t.lit = lit
+            return [t]
         b = BYTEORDER.search(fn)
         if b and b.group(2) == ("read" if self.mode == "r" else "write"):
             w = int(b.group(4)) // 8
@@ -369,6 +376,16 @@ def compare(rt, wt, path="", fields=None):
             i += 1
             j += 1
             continue
+        if a.k == "SKIP" and a.w and b.k in ("P", "B") and b.w is not None and b.w < a.w:
+            # a reader-side skip of n bytes absorbs the writer tokens that fill those n bytes
+            tot, jj = 0, j
+            while jj < len(wt) and wt[jj].k in ("P", "B") and wt[jj].w is not None and tot < a.w:
+                tot += wt[jj].w
+                jj += 1
+            if tot == a.w:
+                i += 1
+                j = jj
+                continue
         if a.k != b.k:
             # SKIP(n) on one side may pair with B(n)/P* padding on the other
             if a.k == "SKIP" and b.k in ("B", "P") and (b.w == a.w):
